@@ -247,7 +247,7 @@ class TorchOps(Ops):
             return out
         return self.tag(out, "slice", node, axis=tag, axis_pos=axis, lo_poly=self.poly_of(lo), hi_poly=self.poly_of(hi),
                         lo_given=lo is not None, hi_given=hi is not None and not (isinstance(hi, Const) and hi.v == "len"),
-                        step=repr(step), in_origin=sorted(tv.origin))
+                        step=repr(step), in_origin=sorted(tv.origin), loop_trip=self.loop_trip() if getattr(self, "open_loops", None) else None, in_loop=bool(getattr(self, "open_loops", None)))
 
     def list_subscript(self, base: ListV, idx, node):
         if idx[0] == "index":
